@@ -430,9 +430,36 @@ def run_vecnorm(case):
     d = tempfile.mkdtemp(prefix="c15_")
     try:
         path = os.path.join(d, "vn.pkl")
+        before_save = {"venv": vn.venv, "returns": [float(x) for x in vn.returns], "n_attr": len(vn.__dict__)}
         vn.save(path)
+        # ---- saving must not touch the ORIGINAL wrapper: same venv, same accumulator, every attribute still there, and it still steps
+        save_notes = []
+        if vn.__dict__.get("venv") is not before_save["venv"] or len(vn.__dict__) != before_save["n_attr"] or "returns" not in vn.__dict__ \
+                or [float(x) for x in vn.__dict__.get("returns", [])] != before_save["returns"]:
+            save_notes.append(f"save() changed the wrapper itself: attributes {before_save['n_attr']} -> {len(vn.__dict__)}, venv kept={vn.__dict__.get('venv') is before_save['venv']}, "
+                              f"returns kept={'returns' in vn.__dict__}")
+        if os.path.getsize(path) == 0:
+            save_notes.append("save() wrote an empty file")
         venv2 = DummyVecEnv([mk(sc) for sc in case["scripts"]])
         loaded = VecNormalize.load(path, venv2)
+        # ---- load attaches the given venv and the loaded wrapper works on it
+        if loaded.__dict__.get("venv") is not venv2 or loaded.__dict__.get("num_envs") != n:
+            save_notes.append(f"load(path, venv) did not attach the venv: venv={loaded.__dict__.get('venv')!r} num_envs={loaded.__dict__.get('num_envs')!r}")
+        else:
+            try:
+                loaded.reset()
+                loaded.step(np.zeros(n, dtype=np.int64))
+            except Exception as e:  # noqa: BLE001
+                save_notes.append(f"the loaded wrapper cannot reset/step: {type(e).__name__}: {e}")
+            loaded = VecNormalize.load(path, DummyVecEnv([mk(sc) for sc in case["scripts"]]))   # a fresh one for the field comparison below
+            venv2 = loaded.venv
+        # ---- a venv whose observation shapes differ is refused
+        other_kind = "box" if kind != "box" else "dict_box"
+        try:
+            VecNormalize.load(path, DummyVecEnv([(lambda sc=sc: ArrEnv(other_kind, sc)) for sc in case["scripts"]]))
+            save_notes.append(f"load onto a venv with another observation space ({other_kind} instead of {kind}) was accepted")
+        except (AssertionError, ValueError):
+            pass
 
         def fields(w):
             rms = getattr(w, "obs_rms", None)
@@ -471,9 +498,13 @@ def run_vecnorm(case):
             pairs = [(a, b)] if not isinstance(a, dict) else [(a[k], b[k]) for k in a]
             shares = any(np.shares_memory(x.mean, y.mean) or np.shares_memory(x.var, y.var) for x, y in pairs)
         shares = shares or other.ret_rms is vn.ret_rms
+        try:   # (last, because it changes the statistics) the original wrapper still steps after save()
+            vn.step(np.zeros(n, dtype=np.int64))
+        except Exception as e:  # noqa: BLE001
+            save_notes.append(f"the wrapper cannot step after save(): {type(e).__name__}: {e}")
     finally:
         shutil.rmtree(d, ignore_errors=True)
-    return {"events": events, "space_ok": bool(space_ok), "second_set_venv_raises": second_set_venv_raises, "legacy_keys_ok": bool(legacy_keys_ok), "saved": f0, "loaded": f1, "loaded_returns": loaded_returns, "synced": f2, "sync_shares_memory": bool(shares),
+    return {"events": events, "save_notes": save_notes, "space_ok": bool(space_ok), "second_set_venv_raises": second_set_venv_raises, "legacy_keys_ok": bool(legacy_keys_ok), "saved": f0, "loaded": f1, "loaded_returns": loaded_returns, "synced": f2, "sync_shares_memory": bool(shares),
             "chan_norm": chan_flags(case)}
 
 
@@ -513,20 +544,20 @@ def _ck(ev, case, chans):
     ret = _q4(ev["ret_stats"], eps)
     returns = coq_list([F(x) for x in ev["returns"]], coq_Q)
     training, norm_obs, norm_reward = ev["flags"]
-    out_obs = out_term = unn = out_rews = orig_obs = orig_rew = "[]"
+    out_obs = out_term = unn = out_rews = orig_obs = orig_rew = unn_rews = "[]"
     vec = lambda v: coq_list([F(x) for x in v[:nchan]], coq_Q)  # noqa: E731
     if ev["op"] != "set":
         out_obs = coq_list([vec(ev["out_obs"][i]) for i in range(n)])
         orig_obs = coq_list([vec(ev["orig_obs"][i]) for i in range(n)])
-        if norm_obs:
-            unn = coq_list([vec(ev["unnorm_obs"][i]) for i in range(n)])
+        unn = coq_list([vec(ev["unnorm_obs"][i]) for i in range(n)])     # with norm_obs off: the identity
         if ev["op"] == "step":
+            unn_rews = coq_list([F(x) for x in ev["unnorm_rew"]], coq_Q)
             # a done sub-environment must carry a terminal observation: a missing one is sent as an impossible value
             out_term = coq_list(["None" if ev["raw_term"][i] is None else
                                  f"(Some ({vec(ev['raw_term'][i])}, {vec(ev['out_term'][i]) if ev['out_term'][i] is not None else '[]'}))" for i in range(n)])
             out_rews = coq_list([F(x) for x in ev["out_rews"]], coq_Q)
             orig_rew = coq_list([F(x) for x in ev["orig_rew"]], coq_Q)
-    return f"(mk_ck {stats} {ret} {returns} {out_obs} {out_term} {unn} {out_rews} {orig_obs} {orig_rew})"
+    return f"(mk_ck {stats} {ret} {returns} {out_obs} {out_term} {unn} {out_rews} {orig_obs} {orig_rew} {unn_rews})"
 
 
 def chan_stats(fields, kind, nchan):
@@ -652,6 +683,8 @@ def compare_vecnorm(case, impl, mv):
                                     probs.append(("oracle-terminal-observation-transform", f"op {k} env {i} channel {ch}: terminal observation {ev['out_term'][i][ch]!r}, "
                                                   f"the observation transform gives {wt!r}"))
                     else:
+                        if ev["unnorm_obs"][i][ch] != y:
+                            probs.append(("oracle-unnormalise-obs-not-identity", f"op {k} env {i} channel {ch}: not normalised but unnormalize_obs({y!r}) = {ev['unnorm_obs'][i][ch]!r}"))
                         if y != f32(x):
                             probs.append(("oracle-unnormalised-key-changed", f"op {k} env {i} channel {ch}: not normalised but returned {y!r} for raw {x!r}"))
                         if op[0] == "step" and ev["raw_term"][i] is not None and ev["out_term"][i] is not None and ev["out_term"][i][ch] != f32(ev["raw_term"][i][ch]):
@@ -665,6 +698,13 @@ def compare_vecnorm(case, impl, mv):
                             probs.append(("oracle-normalised-reward", f"op {k} env {i}: returned reward {y!r}, clipped scaled value {want!r}"))
                     elif y != f32(r):
                         probs.append(("oracle-normalised-reward", f"op {k} env {i}: norm_reward off but reward {y!r} != raw {r!r}"))
+                    # unnormalize_reward: inverse of normalize_reward inside the clip range; the identity when norm_reward is off
+                    u = ev["unnorm_rew"][i]
+                    if norm_reward:
+                        if abs(y) < case["clip_reward"] * (1 - 1e-6) and not close(r, u, 1e-4, 1e-4):
+                            probs.append(("oracle-unnormalise-reward-not-inverse", f"op {k} env {i}: unnormalize_reward(normalised reward) = {u!r}, raw reward {r!r}"))
+                    elif u != y:
+                        probs.append(("oracle-unnormalise-reward-not-identity", f"op {k} env {i}: norm_reward off but unnormalize_reward({y!r}) = {u!r}"))
                 rets = [F(0) if ev["dones"][i] else rets[i] for i in range(n)]
         # statistics = moments of everything that entered, merged with the prior
         for ch in range(nchan):
@@ -684,6 +724,8 @@ def compare_vecnorm(case, impl, mv):
             probs.append(("oracle-returns-accumulator", f"op {k}: impl returns {ev['returns']}, discounted sums since the last episode end {[float(x) for x in rets]}"))
         if probs:
             break
+    for note in impl.get("save_notes", []):
+        probs.append(("oracle-save-load-wrapper", note))
     if not impl.get("space_ok", True):
         probs.append(("oracle-observation-space", "observation_space of the wrapper: an image space must become Box(-clip_obs, clip_obs, float32) when norm_obs, anything else stay as it is"))
     if not impl.get("second_set_venv_raises", True):
@@ -782,15 +824,25 @@ def run_cases(chk, cases):
 
             tb = traceback.extract_tb(e.__traceback__)
             where = next((f"{os.path.basename(f.filename)}:{f.lineno}" for f in reversed(tb) if "/stable_baselines3/" in f.filename), "harness")
-            impls.append({"raised": f"{type(e).__name__}: {e} (at {where})"})
+            impls.append({"raised": f"{type(e).__name__}: {e} (at {where})", "traceback": traceback.format_exc()[-2500:]})
     exprs, spans = [], []
     for c, im in zip(cases, impls):
         e = ["true"] if "raised" in im else EXPRS[c["kind"]](c, im)
         spans.append((len(exprs), len(exprs) + len(e)))
         exprs += e
     vals = common.coq_eval_many(chk.pid, HEADER, exprs, shard=60, procs=4)
-    results = [([("oracle-implementation-raises", "the implementation raises on a legal history: " + im["raised"])] if "raised" in im
-                else COMPARE[c["kind"]](c, im, vals[a:b])) for c, im, (a, b) in zip(cases, impls, spans)]
+    results = []
+    for c, im, (a, b) in zip(cases, impls, spans):
+        if "raised" in im:
+            results.append([("oracle-implementation-raised", "the implementation raises on a legal history: " + im["raised"])])
+            continue
+        try:
+            results.append(COMPARE[c["kind"]](c, im, vals[a:b]))
+        except Exception as e:  # noqa: BLE001 - what the implementation returned cannot even be compared
+            import traceback
+
+            im["traceback"] = traceback.format_exc()[-2500:]
+            results.append([("oracle-implementation-raised", f"the implementation's output cannot be compared (unexpected shape / missing value): {type(e).__name__}: {e}")])
     return impls, results
 
 
@@ -835,7 +887,7 @@ def main():
                 continue
             reported.add(sig)
             chk.violation(sig, "; ".join(m for _, m in (oracle_bad or probs)[:2]),
-                          {"case": c, "problems": probs[:8], "correspondence": "harness/c15.py vs Model.VecNorm.vn_trace / Model.RunningMoments (rms_trace)"},
+                          {"case": c, "problems": probs[:8], "traceback": im.get("traceback"), "correspondence": "harness/c15.py vs Model.VecNorm.vn_trace / Model.RunningMoments (rms_trace)"},
                           found_input=bool(oracle_bad))
             if len(reported) >= 3:
                 break
